@@ -1,3 +1,4 @@
+import BycycleModel.Generated.SlotsModuleState
 import Proofs.Effects
 import Proofs.EffectsFull
 import Proofs.EffectsTranslated
@@ -77,5 +78,13 @@ example : wellSummarised [⟨"g", ["d"], [.write "d"]⟩, ⟨"f", ["a", "b"], [.
 /-- a branch cut short by the step budget is never followed by the continuation (regression for the first, unsound
 formulation of `execFull`, found while proving `sound_full`). -/
 example : (Fn.runFull [⟨"f", ["p"], [.ite [.alias "x" "p", .fresh "x"] [], .write "x"]⟩] [] 2 ⟨"f", ["p"], [.ite [.alias "x" "p", .fresh "x"] [], .write "x"]⟩ [true]) = [] := by decide
+
+/-- NO STATE OUTSIDE THE ARGUMENTS (read off /repo on every run, `harness/modstate.py`): no function or method of the analysis modules declares a `global`, is
+wrapped in a memoising decorator, writes through a module-level name (`NAME[k] = v`, `NAME.update(..)`, `NAME.attr = v`, ...), writes a mutable default
+argument, and no class keeps a class-level container. Together with `C15_translated_frame` (no caller-owned object is written) the only objects a call can
+write are the ones it created itself: nothing is left behind for a later call to read, which is the 'no call-history dependence' half of the statement.
+(Sufficient, not necessary: a cache keyed on the VALUES of all its inputs would be harmless and would still break this theorem; the run then looks for a
+failing history and says so when it finds none.) -/
+theorem C15_no_module_state : Slots.moduleStateWrites = [] := by decide
 
 end Bycycle.Eff
